@@ -12,6 +12,23 @@ CHECKS = {
             "names; canonical ordering is enumerated over all insertion permutations of <=4 of 8 keys. Complete within the "
             "alphabet; says nothing about keys/values outside it.",
             "trusted: refmodel/caseless.py (80 lines); pop() default None taken as documented signature", "3/C17"),
+    "C06": ("bounded-exhaustive enumeration of lines over a width alphabet at every alignment with the 75-octet fold boundary, executed on the real folder",
+            "All lines a^p.w.b^s (p 0..160, w over {1,2,3,4-octet chars, SP, TAB, CR} up to length 3/4) and all periodic mixtures "
+            "are folded by the real code and checked byte-wise against the statement (<=75 octets, UTF-8 per line, one space, exact "
+            "unfolding), alone and inside serialised components. Complete for the alphabet and lengths stated; other code points "
+            "are represented by their width class.",
+            "trusted: 40-line byte-level oracle in checks/c06.py; characters outside the alphabet assumed to behave like their UTF-8 width class", "3/C06"),
+    "C07": ("bounded-exhaustive enumeration of all strings over the critical escape alphabet, round-tripped through the real codec, property and list paths vs. an RFC 5545 TEXT reference model",
+            "Every string over {\\ n N ; , : \" % 2 C CR LF SP a} up to length 4 (thorough 5, codec+SUMMARY 6) plus seed-rotated pairs of other "
+            "Unicode characters goes through vText, Event.add/to_ical/from_ical and CATEGORIES lists; decoded values must lie in the set the "
+            "statement allows. Mismatches are tolerated only if they equal the prediction of the documented placeholder defect model "
+            "(open finding), so any other change of behaviour on already-failing inputs still alarms.",
+            "trusted: refmodel/rfc_text.py (TEXT codec, strict line splitter, placeholder defect predictor)", "3/C07"),
+    "C08": ("bounded-exhaustive enumeration of parameter maps (names in several cases, all value strings over a 15-symbol alphabet, list shapes) on three real serialise/parse paths vs. a strict RFC 3.1/3.2 splitter",
+            "All values up to length 3 (thorough 4) x 7 list shapes x 5 names / 4 name pairs x {Parameters alone, content line, parsed component}; "
+            "round-trip equality, upper-case sorted names, quoting of , ; : and agreement with an independent strict splitter (RFC 6868 reading accepted). "
+            "Placeholder mismatches tolerated only when equal to the defect model's prediction.",
+            "trusted: refmodel/rfc_text.py; values free of double quotes and control characters as the statement says", "3/C08"),
 }
 REASON_PENDING = "check under construction in this session; not claimed until it has been built, silenced on the unchanged tree and shown to detect a seeded change"
 ALL = [f"C{i:02d}" for i in range(1, 21)]
